@@ -392,7 +392,7 @@ def search(ctx, case, types, every, root_dir, clean_out, lctx, built, own_paths)
                          rep(type=tstr(tkey(t)), dependency=tstr(dk), include=inc, generated_as=own))
             ctx.count("search_include_paths_checked")
             if language.name in ("c", "cpp"):
-                lst = gen._env.filters["includes"](t)   # the filter as the templates call it
+                lst = gen._env.filters["includes"](gen._env, t)   # the registered filter (language bound), as a template calls it
                 if f'"{inc}"' not in lst and f"<{inc}>" not in lst:
                     ctx.fail({"kind": "include-list"}, "filter_includes does not list the dependency under its output path",
                              rep(type=tstr(tkey(t)), dependency=tstr(dk), include=inc, includes=lst))
@@ -544,26 +544,126 @@ def run_pathlib_tie(ctx, drv):
     ctx.extra["pathlib_ops_compared"] = len(reqs)
 
 
+def one_tree(ctx, pending, case, types, deps, root_dir, out_spelled, lctx):
+    """Real side of one case: build + extract, sample the strop table, queue the model request."""
+    language = lctx.get_target_language()
+    every = list(types) + list(deps)
+    res, built = impl_extract(types, every, root_dir, out_spelled, lctx)
+    names = set([""]) if not types else set()
+    for t in every:
+        k = tkey(t)
+        names.update(k[0]); names.add(short_ver(k))
+    table = {n: language.filter_id(n, "path") for n in names}
+    from nunavut.lang import Language
+    line = request(language.enable_stropping, language.extension,
+                   language.get_config_value(Language.WKCV_NAMESPACE_FILE_STEM, "_"), out_spelled,
+                   second_pass_order(types), table, [tkey(t) for t in types], [tkey(t) for t in deps])
+    pending.append((line, res, case, [tkey(t) for t in every]))
+    return res, built
+
+
+def count_case(ctx, case, types, res, language, lang, ext, stem, enable, out_spelled):
+    nontrivial = len(types) >= 2 or len(res.get("namespaces", [])) >= 2
+    ctx.case((case["types"], lang, ext, stem, enable, out_spelled), nontrivial)
+    ctx.count("lang=" + lang)
+    ctx.count("outdir=" + ("absolute" if out_spelled.startswith("/") else "relative") + ("+slash" if out_spelled.endswith("/") else ""))
+    if ext is not None: ctx.count("ext_override")
+    if stem is not None: ctx.count("stem_override")
+    if enable is not None: ctx.count("stropping_override")
+    if case["refs"]: ctx.count("has_refs_outside_the_tree")
+    if not types: ctx.count("empty_type_list")
+    depth = max([len(tkey(t)[0]) for t in types] or [0])
+    ctx.count(f"max_depth={min(depth, 6)}")
+    holders = {tkey(t)[0] for t in types}
+    if any(k not in holders for k in (tuple(n.split(".")) for n in res.get("namespaces", []))):
+        ctx.count("has_empty_intermediate_namespace")
+    if len({(tkey(t)[0], tkey(t)[1]) for t in types}) < len(types): ctx.count("has_several_versions")
+    if any(language.filter_id(n, "path") != n for t in types for n in tkey(t)[0] + (short_ver(tkey(t)),)):
+        ctx.count("has_stropped_name")
+
+
+EXH_SPEC = {"roots": [{"name": "r", "files": dict(
+    [(f"{d}X.1.0.dsdl", "uint8 x\n@sealed\n") for d in ("", "a/", "b/", "a/a/", "a/b/", "b/a/", "b/b/")] +
+    [(f"{d}X.1.1.dsdl", "uint8 x\n@sealed\n") for d in ("", "a/", "b/", "a/a/", "a/b/", "b/a/", "b/b/")] +
+    [(f"{d}Y.0.1.dsdl", "r.a.b.X.1.0 f\n@sealed\n") for d in ("", "a/", "b/", "a/a/", "a/b/", "b/a/", "b/b/")])}]}
+
+
+def run_exhaustive(ctx, pending):
+    """Every subset of <= k types of a 21-type universe (7 namespaces of depth <= 3, two versions of X, a Y that
+    references r.a.b.X.1.0), handed to the real build_namespace_tree as real PyDSDL objects."""
+    rng = ctx.rng
+    ubase = ctx.scratch / "exh"
+    roots = write_corpus_universe(ubase / "dsdl", EXH_SPEC)
+    types = read_root(roots[0])
+    assert len(types) == 21, len(types)
+    types = sorted(types, key=lambda t: tkey(t))
+    kmax = 2 if ctx.quick else 3
+    subsets = [c for k in range(0, kmax + 1) for c in itertools.combinations(range(21), k)]
+    extra = 250 if ctx.quick else 3000
+    for _ in range(extra):
+        subsets.append(tuple(rng.sample(range(21), rng.choice([kmax + 1, kmax + 2, 6, 9, 21]))))
+    work = ubase / "work"
+    work.mkdir(parents=True)
+    lctxs = {l: make_lctx(l) for l in LANGS}
+    old = os.getcwd()
+    os.chdir(work)
+    try:
+        for i, sub in enumerate(subsets):
+            lang = LANGS[i % 4]
+            lctx = lctxs[lang]
+            language = lctx.get_target_language()
+            sel = [types[j] for j in sub]
+            rng.shuffle(sel)
+            deps = []
+            for t in sel:
+                for d in direct_deps(language, t):
+                    if d not in sel and d not in deps:
+                        deps.append(d)
+            case = {"universe": "exhaustive", "root": "r", "lang": lang, "ext": None, "stem": None, "enable_stropping": None,
+                    "outdir": "out", "types": [tstr(tkey(t)) for t in sel], "refs": [tstr(tkey(t)) for t in deps]}
+            res, built = one_tree(ctx, pending, case, sel, deps, roots[0]["dir"], "out", lctx)
+            count_case(ctx, case, sel, res, language, lang, None, None, None, "out")
+            ctx.count("stream=exhaustive")
+            if built is not None:
+                search(ctx, case, sel, sel + deps, roots[0]["dir"], "out", lctx, built, {})
+    finally:
+        os.chdir(old)
+    ctx.extra["exhaustive_small_domain"] = {"universe_types": 21, "all_subsets_up_to": kmax, "subsets": len(subsets) - extra,
+                                            "sampled_larger_subsets": extra}
+    shutil.rmtree(ubase, ignore_errors=True)
+
+
 def run(ctx: common.Ctx):
     drivers = ctx.prove(["C11"], exes=["nstree"])
     drv = drivers.get("nstree")
-    ctx.rule = ("one case = (root namespace read by the real front end, language, extension/stem/stropping overrides, output "
-                "directory spelling); non-trivial = the root has >= 2 namespaces or >= 2 types; distinct by (type list, configuration, "
-                "spelling); universes of 1-3 roots with gaps, versions, keyword names, nested and cross-root references")
+    ctx.rule = ("one case = (type list read by the real front end, language, extension/stem/stropping overrides, output directory "
+                "spelling); non-trivial = >= 2 namespaces or >= 2 types; distinct by (type list in order, configuration, spelling); "
+                "streams: corpus universes, every subset of <= k types of a 21-type universe, random universes of 1-3 roots with "
+                "gaps, versions, keyword names, nested and cross-root references, universes with names the stropping folds")
     ctx.assumptions = [
         "pathlib.PurePosixPath is modelled for the operations used (tie stream 'pathlib'); a segment starting with exactly two slashes is excluded",
         "lexical containment: symbolic links below the output directory are not considered",
         "the namespace directories exist (Namespace.__init__ raises FileNotFoundError otherwise): true for types read from them",
         "filter_id(., 'path') is a function of the name alone (sampled once per name into the strop table)",
+        "the model iterates sets in insertion order; the second pass gets the real set's walk order, traversal results are compared as multisets",
     ]
     import pydsdl
+    import time
+    timing = ctx.extra.setdefault("timing_s", {})
+    t_mark = [time.time()]
+
+    def lap(name):
+        timing[name] = round(timing.get(name, 0) + time.time() - t_mark[0], 2)
+        t_mark[0] = time.time()
+    lap("prove")
     if drv is not None:
         run_pathlib_tie(ctx, drv)
+    lap("pathlib_tie")
 
     rng = ctx.rng
-    n_random = 14 if ctx.quick else 220
-    n_collide = 4 if ctx.quick else 40
-    n_real = 10 if ctx.quick else 80
+    n_random = 60 if ctx.quick else 900
+    n_collide = 12 if ctx.quick else 150
+    n_real = 24 if ctx.quick else 250
     universes = []
     corpus = common.VERIF / "corpus" / "C11"
     for f in sorted(corpus.glob("*.json")):
@@ -577,6 +677,10 @@ def run(ctx: common.Ctx):
     pending = []   # (request line, impl result, case description, every)
     real_budget = n_real
     for ui, (uname, spec) in enumerate(universes):
+        if ui == ncorpus:
+            lap("corpus")
+            run_exhaustive(ctx, pending)
+            lap("exhaustive")
         ubase = ctx.scratch / f"u{ui}"
         src = ubase / "dsdl"
         sandbox = ubase / "sandbox"
@@ -598,7 +702,8 @@ def run(ctx: common.Ctx):
             shutil.rmtree(ubase, ignore_errors=True)
             continue
         ctx.count("universes")
-        vs = variants(rng, 2 if ctx.quick else 4) if spec is None else \
+        ctx.count("stream=" + uname.split(":")[0], 0)
+        vs = variants(rng, 2 if ctx.quick else 3) if spec is None else \
             [tuple(v) for v in spec.get("variants", [])] or variants(rng, 1)
         for (lang, ext, stem, enable) in vs:
             try:
@@ -607,8 +712,7 @@ def run(ctx: common.Ctx):
                 ctx.count("config_rejected:" + type(ex).__name__)
                 continue
             language = lctx.get_target_language()
-            spell = rng.choice(out_spellings(rng, str(work)))
-            out_spelled, out_clean, out_abs = spell
+            out_spelled, out_clean, out_abs = rng.choice(out_spellings(rng, str(work)))
             # the relative path every type gets in the tree of its own root (same configuration)
             own_paths, trees = {}, []
             old = os.getcwd()
@@ -620,20 +724,10 @@ def run(ctx: common.Ctx):
                         for d in direct_deps(language, t):
                             if d not in types and d not in deps:
                                 deps.append(d)
-                    every = list(types) + deps
                     case = {"universe": uname, "root": r["name"], "lang": lang, "ext": ext, "stem": stem, "enable_stropping": enable,
                             "outdir": out_spelled, "types": [tstr(tkey(t)) for t in types], "refs": [tstr(tkey(t)) for t in deps]}
-                    res, built = impl_extract(types, every, r["dir"], out_spelled, lctx)
-                    names = set([""]) if not types else set()
-                    for t in every:
-                        k = tkey(t)
-                        names.update(k[0]); names.add(short_ver(k))
-                    table = {n: language.filter_id(n, "path") for n in names}
-                    line = request(language.enable_stropping, language.extension,
-                                   language.get_config_value("namespace_file_stem", "_"), out_spelled,
-                                   second_pass_order(types), table, [tkey(t) for t in types], [tkey(t) for t in deps])
-                    pending.append((line, res, case, [tkey(t) for t in every]))
-                    trees.append((r, types, every, case, res, built))
+                    res, built = one_tree(ctx, pending, case, types, deps, r["dir"], out_spelled, lctx)
+                    trees.append((r, types, deps, case, res, built))
                     if built is not None:
                         base = pathlib.PurePosixPath(out_spelled)
                         for t, p in built[0].get_all_datatypes():
@@ -641,28 +735,13 @@ def run(ctx: common.Ctx):
                                 own_paths[tkey(t)] = pathlib.PurePosixPath(p.as_posix()).relative_to(base).as_posix()
                             except ValueError:
                                 own_paths[tkey(t)] = p.as_posix()
-                for (r, types, every, case, res, built) in trees:
-                    nontrivial = len(types) >= 2 or len(res.get("namespaces", [])) >= 2
-                    ctx.case((case["types"], lang, ext, stem, enable, out_spelled), nontrivial)
-                    ctx.count("lang=" + lang)
-                    ctx.count("outdir=" + ("absolute" if out_spelled.startswith("/") else "relative") + ("+slash" if out_spelled.endswith("/") else ""))
-                    if ext is not None: ctx.count("ext_override")
-                    if stem is not None: ctx.count("stem_override")
-                    if enable is not None: ctx.count("stropping_override")
-                    if case["refs"]: ctx.count("has_cross_root_refs")
-                    if not types: ctx.count("empty_type_list")
-                    depth = max([len(tkey(t)[0]) for t in types] or [0])
-                    ctx.count(f"max_depth={min(depth, 6)}")
-                    holders = {tkey(t)[0] for t in types}
-                    if any(k not in holders for k in (tuple(n.split(".")) for n in res.get("namespaces", []))):
-                        ctx.count("has_empty_intermediate_namespace")
-                    if len({(tkey(t)[0], tkey(t)[1]) for t in types}) < len(types): ctx.count("has_several_versions")
-                    if any(language.filter_id(n, "path") != n for t in types for n in tkey(t)[0] + (short_ver(tkey(t)),)):
-                        ctx.count("has_stropped_name")
+                for (r, types, deps, case, res, built) in trees:
+                    count_case(ctx, case, types, res, language, lang, ext, stem, enable, out_spelled)
+                    ctx.count("stream=" + uname.split(":")[0])
                     if built is None:
                         ctx.count("build_raises_ValueError")
                         continue
-                    search(ctx, case, types, every, r["dir"], out_clean, lctx, built, own_paths)
+                    search(ctx, case, types, list(types) + deps, r["dir"], out_clean, lctx, built, own_paths)
             finally:
                 os.chdir(old)
             # a real run for some of the cases
@@ -679,28 +758,31 @@ def run(ctx: common.Ctx):
                         ctx.count("real_run_raises_ValueError")
                     shutil.rmtree(work, ignore_errors=True)
                     work.mkdir(parents=True)
-        if spec is None or not spec.get("keep"):
-            shutil.rmtree(ubase, ignore_errors=True)
+        shutil.rmtree(ubase, ignore_errors=True)
 
     ctx.extra["domain"] = {"corpus_universes": ncorpus, "random_universes": n_random, "collision_universes": n_collide,
                            "tree_cases": len(pending), "real_runs_budget": n_real}
     ctx.exhaustive = False
+    lap("universes")
     # ---- model side ----------------------------------------------------------------------------------------
     if drv is not None:
-        answers = drv.ask([p[0] for p in pending], timeout=900)
+        answers = []
+        for i in range(0, len(pending), 500):
+            answers += drv.ask([p[0] for p in pending[i:i + 500]], timeout=900)
         for (line, res, case, every), ans in zip(pending, answers):
             ctx.traces += 1
             try:
                 m = parse_answer(ans, every)
             except Exception as ex:  # malformed answer = disagreement, never a crash
                 m = {"error": f"unparsable: {ans[:200]} ({ex})"}
-            d = None if m == res else (first_diff(m, res) or {"model": m, "impl": res})
-            if d is not None:
-                ctx.disagree("nstree", dict(case, request=line), d.get("model", m.get("error")), d.get("impl", res.get("error")) if isinstance(d, dict) else res)
-                ctx.extra.setdefault("first_disagreement", d)
-    for line, res, case, every in pending[:3] + pending[-2:]:
-        ctx.sample({"case": {k: case[k] for k in ("root", "lang", "ext", "stem", "outdir")}, "types": case["types"][:6],
-                    "paths": [e[1] for e in res.get("datatypes", [])][:6], "namespaces": res.get("namespaces", res.get("error"))})
+            if m != res:
+                d = first_diff(m, res) or {}
+                ctx.disagree("nstree", dict(case, request=line, where=d.get("field"), at=d.get("at")),
+                             d.get("model", m.get("error", "?")), d.get("impl", res.get("error", "?")))
+    lap("model_and_compare")
+    for line, res, case, every in pending[:2] + pending[len(pending) // 2: len(pending) // 2 + 2] + pending[-2:]:
+        ctx.sample({"case": {k: case[k] for k in ("universe", "root", "lang", "ext", "stem", "outdir")}, "types": case["types"][:6],
+                    "paths": ["/".join(e[1]) for e in res.get("datatypes", [])][:6], "namespaces": res.get("namespaces", res.get("error"))})
 
 
 def replay(ctx, path):
